@@ -90,7 +90,11 @@ func genCache(r *prng.R, n int) []string {
 		case x < 64:
 			tl.ops = append(tl.ops, "has k="+k)
 		case x < 68:
-			tl.ops = append(tl.ops, "del k="+k)
+			if r.Chance(15) {
+				tl.ops = append(tl.ops, "del2 k="+k, "probe")
+			} else {
+				tl.ops = append(tl.ops, "del k="+k)
+			}
 		case x < 80 && gated:
 			// concurrent callers: park a Set before its insert / a Get or Has after its lookup, release later
 			id := 1 + r.Intn(4)
